@@ -280,7 +280,7 @@ func genC06Strlen(r *plan.Rng) *plan.Plan {
 func genC06Recursion(r *plan.Rng) *plan.Plan {
 	p := &plan.Plan{Shape: "recursion"}
 	depth := []int{10, 500, 1000, 1021, 1022, 1023, 1024, 1025, 1500, 2047, 2048, 5000, 100000}[r.Intn(13)]
-	width := []int{0, 0, 1, 2, 8, 30, -1, -2, -3, -3, -4}[r.Intn(11)]
+	width := []int{0, 0, 1, 2, 8, 30, -1, -2, -3, -3, -4, -5, -5}[r.Intn(13)]
 	param(p, "depth", int64(depth))
 	param(p, "width", int64(width))
 	var src string
@@ -320,6 +320,41 @@ func genC06Recursion(r *plan.Rng) *plan.Plan {
 		param(p, "forwardK", int64(k))
 		note(p, "kinds", "rec/forward/k"+itoa(k)+"/d"+itoa(depth%1200))
 		p.Scripts = []plan.Script{{Src: src, Inputs: c06Inputs()}}
+		return p
+	}
+	if width == -5 {
+		// D nested calls that are not tail calls, then a tail-recursive spin in the
+		// deepest one: a tail call reuses its frame, so the spin's length cannot
+		// decide whether the frames suffice. Two scripts: spin 0 and spin 50.
+		d := depth
+		if d > 3000 {
+			d = 1024 - r.Intn(6)
+		}
+		mk := func(spin int) string {
+			return lines(
+				"cnt := 0",
+				"spin := func(i) {",
+				"	if i == 0 {",
+				"		return 0",
+				"	}",
+				"	return spin(i - 1)",
+				"}",
+				"dive := func() {",
+				"	cnt += 1",
+				"	if cnt < "+itoa(d)+" {",
+				"		dive()",
+				"	} else {",
+				"		spin("+itoa(spin)+")",
+				"	}",
+				"	return 1",
+				"}",
+				"dive()",
+				"out := cnt")
+		}
+		param(p, "tailSpin", 50)
+		param(p, "depth", int64(d))
+		note(p, "kinds", "rec/tailspin/d"+itoa(d))
+		p.Scripts = []plan.Script{{Src: mk(0), Inputs: c06Inputs()}, {Src: mk(50), Inputs: c06Inputs()}}
 		return p
 	}
 	if width == -1 {
